@@ -143,6 +143,16 @@ func execute(e *rt.Entry, sc *prog.Scenario, id uint64, quiet bool, setCur bool)
 				for time.Since(t0) < 3*time.Millisecond {
 					runtime.Gosched()
 				}
+				// every running function is held: count the goroutines the
+				// directive's scheduler has (workers + loop, whatever the number of
+				// functions)
+				nsched := 0
+				for _, g := range mon.ParseDump(mon.DumpAll()) {
+					if g.InScheduler() {
+						nsched++
+					}
+				}
+				x.CensusSched.Store(int64(nsched))
 			case <-stop:
 			}
 			x.OpenGate()
